@@ -18,7 +18,13 @@ type pEdge struct {
 	to    *pNode
 }
 
+type pLeaf struct {
+	guard    *Term
+	err, eos bool
+}
+
 type pNode struct {
+	leaves []pLeaf
 	id    int
 	ev    protoStep
 	edges []*pEdge
@@ -72,9 +78,21 @@ func buildTree(tb *TB, task int, paths []*PathResult) *pTree {
 		}
 		for _, s := range steps {
 			if s.Kind == "result" {
+				// the task stops here: remember under which branch decisions, and with which outcome
+				g := tb.True
+				for _, c := range p.PC[prevLen:s.PcLen] {
+					g = tb.And(g, c)
+				}
+				dup := false
+				for _, lf := range cur.leaves {
+					if lf.guard == g {
+						dup = true
+					}
+				}
+				if !dup {
+					cur.leaves = append(cur.leaves, pLeaf{guard: g, err: s.A.IsConst() && s.A.Val == 1, eos: s.B.IsConst() && s.B.Val == 1})
+				}
 				cur.leaf = true
-				cur.err = s.A.IsConst() && s.A.Val == 1
-				cur.eos = s.B.IsConst() && s.B.Val == 1
 				break
 			}
 			g := tb.True
@@ -127,7 +145,11 @@ func (tr *pTree) minimise() {
 			}
 		}
 		n.edges = edges
-		key := evSig(n.ev) + fmt.Sprintf("|%v%v%v{", n.leaf, n.err, n.eos) + strings.Join(parts, ";") + "}"
+		lk := ""
+		for _, lf := range n.leaves {
+			lk += fmt.Sprintf("L%d%v%v", lf.guard.ID, lf.err, lf.eos)
+		}
+		key := evSig(n.ev) + "|" + lk + "{" + strings.Join(parts, ";") + "}"
 		if c, ok := canon[key]; ok {
 			return c, key
 		}
@@ -253,8 +275,8 @@ func protoBMC(c *Ctx, side string, trees []*pTree, rep *protoReport, timeoutMs i
 		for i, tr := range trees {
 			leaf := tb.False
 			for _, n := range tr.nodes {
-				if n.leaf {
-					leaf = tb.Or(leaf, tb.Eq(pos[i][t], w8(n.id)))
+				for _, lf := range n.leaves {
+					leaf = tb.Or(leaf, tb.And(tb.Eq(pos[i][t], w8(n.id)), lf.guard))
 				}
 			}
 			ad = tb.And(ad, leaf)
@@ -280,6 +302,9 @@ func protoBMC(c *Ctx, side string, trees []*pTree, rep *protoReport, timeoutMs i
 						some := tb.False
 						for _, e2 := range y.edges {
 							some = tb.Or(some, tb.Subst(e2.guard, map[*Term]*Term{y.ev.Var: ctr[t]}, map[*Term]*Term{}))
+						}
+						for _, lf := range y.leaves {
+							some = tb.Or(some, tb.Subst(lf.guard, map[*Term]*Term{y.ev.Var: ctr[t]}, map[*Term]*Term{}))
 						}
 						g = tb.And(g, some)
 					}
@@ -364,8 +389,10 @@ func protoBMC(c *Ctx, side string, trees []*pTree, rep *protoReport, timeoutMs i
 	bad := tb.False
 	for i, tr := range trees {
 		for _, n := range tr.nodes {
-			if n.leaf && (n.err || n.eos) {
-				bad = tb.Or(bad, tb.Eq(pos[i][D], w8(n.id)))
+			for _, lf := range n.leaves {
+				if lf.err || lf.eos {
+					bad = tb.Or(bad, tb.And(tb.Eq(pos[i][D], w8(n.id)), lf.guard))
+				}
 			}
 		}
 	}
@@ -375,8 +402,10 @@ func protoBMC(c *Ctx, side string, trees []*pTree, rep *protoReport, timeoutMs i
 	for i, tr := range trees {
 		g := tb.False
 		for _, n := range tr.nodes {
-			if n.leaf && !n.err && !n.eos {
-				g = tb.Or(g, tb.Eq(pos[i][D], w8(n.id)))
+			for _, lf := range n.leaves {
+				if !lf.err && !lf.eos {
+					g = tb.Or(g, tb.And(tb.Eq(pos[i][D], w8(n.id)), lf.guard))
+				}
 			}
 		}
 		good = tb.And(good, g)
@@ -532,8 +561,13 @@ func runProto(prop, tier string, seed int64) int {
 			// native confirmation through the timing-forced twin, if one exists for this obligation
 			v := &Violation{Harness: "H07_" + rep.Side, Kind: "assert", Label: name, Inputs: map[string]uint64{"N": uint64(rep.N)}}
 			twin := ""
+			twinLabel := "api-lost-cancel"
 			if rep.Side == "decode" && name == "P5-failure-leaves-cancel-marker" {
 				twin = "H07_lostcancel_api"
+			}
+			if rep.Side == "encode" && (name == "P5-failure-leaves-cancel-marker" || name == "P3-no-deadlock-every-task-finishes") {
+				twin = "H07_encode_lostcancel_api"
+				twinLabel = "api-encode-lost-cancel"
 			}
 			if twin == "" {
 				problems = append(problems, fmt.Sprintf("%s N=%d %s: counterexample schedule found but no native twin to confirm it", rep.Side, rep.N, name))
@@ -543,7 +577,7 @@ func runProto(prop, tier string, seed int64) int {
 			dir := filepath.Join(outDir, "replays", prop, fmt.Sprintf("%s_N%d_%s", rep.Side, rep.N, name))
 			os.RemoveAll(dir)
 			spec := HarnessSpec{Pkg: "io", Func: twin}
-			v.Label = "api-lost-cancel"
+			v.Label = twinLabel
 			prepareReplay(dir, spec, v)
 			writeJSON(filepath.Join(dir, "schedule.json"), schedule)
 			conf, out := runReplay(dir)
